@@ -201,7 +201,7 @@ def case_skiplog(case):
                 name = line.strip().split(".")[0]
                 decl = next(i for i, l in enumerate(lines) if re.match(rf"\s*{re.escape(name)}\s*=\s*\w+\(", l))
                 if decl > at:
-                    kind = "device-call-in-function-before-declaration"
+                    kind = "device-call-in-function-before-declaration:" + kind.split(":", 1)[1].split(".")[0]
             except StopIteration:
                 pass
         recs.append((scope, depth, line, reason, verdict, kind))
@@ -314,6 +314,7 @@ def main() -> int:
     n_fw = 24 if t == "quick" else 300
     fw_cases = [(i, sd, prog.generate((PROP, sd, "fwl", i), "clean")["source"]) for i in range(n_fw)]
     fw_cases += [(n_fw + i, sd, poly_program(rng_for(PROP, sd, "polyfw", i))) for i in range(n_fw // 2)]
+    fw_cases += [(2 * n_fw + i, sd, src) for i, src in enumerate(corpus.declared_in_block_scripts())]
     for case, st, out in run_cases(case_diff, fw_cases):
         if st != "ok":
             rep.inconclusive_because(f"fw layout case failed: {out[-300:]}")
